@@ -24,6 +24,7 @@ import os
 import random
 import subprocess
 import sys
+import time
 import typing as T
 from concurrent.futures import ProcessPoolExecutor
 from pathlib import Path
@@ -184,6 +185,45 @@ def _worker_a2(args: T.Tuple[str, T.List[T.Tuple[str, T.List[T.Dict[str, T.Any]]
             obs.update({'X': X, 'f': f, 'cwd': cwd, 'bd': 'ok', 'rid': rid, 'cmdline': pre + argv})
             out.append(obs)
     return out
+
+
+def _worker_a3(args: T.Tuple[str, T.List[T.Tuple[str, T.List[T.Dict[str, T.Any]], T.Dict[str, T.Any]]], int]
+               ) -> T.List[T.Dict[str, T.Any]]:
+    """msbuild command lines: mcompile.get_parsed_args_vs on the same build directory (a solution file is put there)."""
+    builddir, runs, sd = args
+    common.use_repo_meson()
+    _devnull_stdout()
+    from mesonbuild import mcompile
+    from mesonbuild.mesonlib import MesonException
+    out = []
+    for rid, X, f in runs:
+        out.append(vs_run(mcompile, MesonException, builddir, rid, X, f, random.Random(f'{sd}:{rid}')))
+    return out
+
+
+def vs_run(mcompile: T.Any, MesonException: T.Any, builddir: str, rid: str, X: T.List[T.Dict[str, T.Any]],
+           f: T.Dict[str, T.Any], rnd: random.Random) -> T.Dict[str, T.Any]:
+    sln = os.path.realpath(os.path.join(builddir, 'x03.sln'))
+    flags = mp.render_flags(f, rnd, '--vs-args')
+    texts = [mp.render_expr(e, rnd) for e in X]
+    parser = argparse.ArgumentParser()
+    mcompile.add_arguments(parser)
+    try:
+        opts = parser.parse_args(['-C', builddir] + flags + texts)
+    except SystemExit:
+        raise MachineryError(f'argparse rejected the rendered command line {flags + texts}')
+    obs: T.Dict[str, T.Any] = {'n': 0, 'rc': 0, 'nrc': 0, 'argv': [], 'err': {'k': '', 'x': 0, 'id': '', 'c': []}}
+    try:
+        cmd, _env = mcompile.get_parsed_args_vs(opts, Path(builddir))
+        obs['n'] = 1
+        obs['argv'] = [('@SLN' if k == 1 and os.path.realpath(a) == sln else a) for k, a in enumerate(cmd)]
+    except MesonException as ex:
+        info = mp.classify_error(str(ex))
+        x = texts.index(info['blamed']) + 1 if info['blamed'] in texts else 0
+        obs['err'] = {'k': info['k'], 'x': x, 'id': '', 'c': info['c']}
+        obs['rc'] = 1
+    obs.update({'X': X, 'f': f, 'cwd': '@O', 'bd': 'ok', 'rid': rid, 'cmdline': flags + texts})
+    return obs
 
 
 def cli_run(builddir: str, pre: T.List[str], argv: T.List[str], cwd_path: str, log: str, nrc: int) -> T.Tuple[int, str]:
@@ -414,7 +454,7 @@ RUN_FIELDS = ('X', 'f', 'cwd', 'bd', 'n', 'rc', 'nrc', 'argv', 'err')
 def strip_case(c: T.Dict[str, T.Any]) -> T.Dict[str, T.Any]:
     if c['kind'] == 'R':
         return {k: c[k] for k in ('id', 'kind', 't', 'r', 'a', 'ops')}
-    return {'id': c['id'], 'kind': 'C', 'T': c['T'], 'runs': [{k: r[k] for k in RUN_FIELDS} for r in c['runs']]}
+    return {'id': c['id'], 'kind': c['kind'], 'T': c['T'], 'runs': [{k: r[k] for k in RUN_FIELDS} for r in c['runs']]}
 
 
 def judge(chk: Check, univ: T.List[T.Dict[str, T.Any]], exprs: T.List[T.Dict[str, T.Any]],
@@ -456,7 +496,7 @@ def report(chk: Check, univ: T.List[T.Dict[str, T.Any]], exprs: T.List[T.Dict[st
         e = exprs[w['x'] - 1]
         targets = [univ[i - 1] for i in c['t']]
         if clause in CLASS_CLAUSES:
-            sig = f"{clause}@{w['shape'] or 'bare'}:spec={w['spec']}:impl={w['impl']}"
+            sig = f"{clause}:spec={w['spec']}:impl={w['impl']}"
         else:
             sig = f"{clause}@{canon_expr(e)}|{';'.join(canon_target(t) for t in targets)}:spec={w['spec']}:impl={w['impl']}"
         code = c['r'][w['x'] - 1]
@@ -467,12 +507,12 @@ def report(chk: Check, univ: T.List[T.Dict[str, T.Any]], exprs: T.List[T.Dict[st
     else:
         r = c['runs'][w['x'] - 1]
         if clause in CLASS_CLAUSES:
-            sig = f"{clause}@{w['shape'] or 'bare'}:spec={w['spec']}:impl={w['impl']}"
+            sig = f"{clause}:spec={w['spec']}:impl={w['impl']}"
         else:
             fl = r['f']
             sig = (f"{clause}@{' '.join(canon_expr(e) for e in r['X'])}|clean={int(fl['clean'])},j={fl['j']},l10={fl['l10']},"
                    f"v={int(fl['v'])},na={fl['na']}|cwd={r['cwd']},bd={r['bd']}:spec={w['spec']}:impl={w['impl']}")
-        detail = {'kind': 'C', 'verdict': w, 'run': r, 'targets': c['T'], 'declared': c.get('declared')}
+        detail = {'kind': c['kind'], 'verdict': w, 'run': r, 'targets': c['T'], 'declared': c.get('declared')}
     chk.violation(sig, detail)
 
 
@@ -490,29 +530,34 @@ def main(chk: Check) -> None:
                 'lines.  Non-trivial = distinct (target set, expression) / command lines where the expected result is '
                 'not "not found": a resolution among >= 2 same-named targets, an ambiguity, a bad type, or a ninja run '
                 'with operands or options.')
-    # 1. model checking
-    cfg = (FAM / 'MCompile_MC.cfg').read_text().replace('MaxTargets = 3', f'MaxTargets = {n_targets}')
-    res = run_tlc(FAM, 'MCompile_MC', cfg_text=cfg, collect=['model.json'], timeout=3000, allow_violation=False)
-    chk.add_tlc(f'MCompile_MC[MaxTargets={n_targets}]', res)
-    model = json.loads(res.collected['model.json'])
-    univ, exprs, sets = model['universe'], model['exprs'], model['sets']
-    cfg = (FAM / 'MCompileCmd_MC.cfg').read_text().replace('MaxExprs = 1', f'MaxExprs = {n_exprs}')
-    res = run_tlc(FAM, 'MCompileCmd_MC', cfg_text=cfg, collect=['cmdmodel.json'], timeout=3000, allow_violation=False)
-    chk.add_tlc(f'MCompileCmd_MC[MaxExprs={n_exprs}]', res)
-    cmodel = json.loads(res.collected['cmdmodel.json'])
-    chk.extra.update({'universe': len(univ), 'target_sets': len(sets), 'expressions': len(exprs),
-                      'flag_space': len(cmodel['flags']), 'cmd_expressions': len(cmodel['exprs'])})
-
+    t0 = time.time()
+    phases: T.Dict[str, float] = {}
+    chk.extra['phase_s'] = phases
     with ProcessPoolExecutor(max_workers=common.NCPU) as ex:
-        # (B) first: the slow part, keeps the pool busy while A is prepared
+        # (B) first: it needs nothing from the model and keeps the pool busy while TLC runs
         fut_b = [ex.submit(_worker_b, (pid, chk.seed, n_runs)) for pid in range(n_proj)]
+
+        # 1. model checking
+        cfg = (FAM / 'MCompile_MC.cfg').read_text().replace('MaxTargets = 3', f'MaxTargets = {n_targets}')
+        res = run_tlc(FAM, 'MCompile_MC', cfg_text=cfg, collect=['model.json'], timeout=3000, allow_violation=False)
+        chk.add_tlc(f'MCompile_MC[MaxTargets={n_targets}]', res)
+        model = json.loads(res.collected['model.json'])
+        univ, exprs, sets = model['universe'], model['exprs'], model['sets']
+        cfg = (FAM / 'MCompileCmd_MC.cfg').read_text().replace('MaxExprs = 1', f'MaxExprs = {n_exprs}')
+        res = run_tlc(FAM, 'MCompileCmd_MC', cfg_text=cfg, collect=['cmdmodel.json'], timeout=3000, allow_violation=False)
+        chk.add_tlc(f'MCompileCmd_MC[MaxExprs={n_exprs}]', res)
+        cmodel = json.loads(res.collected['cmdmodel.json'])
+        chk.extra.update({'universe': len(univ), 'target_sets': len(sets), 'expressions': len(exprs),
+                          'flag_space': len(cmodel['flags']), 'cmd_expressions': len(cmodel['exprs'])})
+
+        phases['model_checking'] = round(time.time() - t0, 1)
 
         # (A1)
         rnd = random.Random(f'{chk.seed}:A1')
         jobs: T.List[T.Tuple[str, T.List[int], bool]] = []
         for si, s in enumerate(sets):
             perms = list(itertools.permutations(s))
-            if len(s) <= 3:
+            if len(s) <= (2 if quick else 3):
                 chosen = perms
             else:
                 chosen = [perms[0]] + rnd.sample(perms[1:], 2)
@@ -541,20 +586,36 @@ def main(chk: Check) -> None:
             for k in range(1, n_exprs + 1):
                 xs += [list(c) for c in itertools.product(cmodel['exprs'], repeat=k)]
             rid = 0
+            rnd2 = random.Random(f'{chk.seed}:A2')
             for X in xs:
-                for f in cmodel['flags']:
+                # every flag combination for <= 1 expression; a seeded sample of them for longer lists
+                fl = cmodel['flags'] if len(X) <= 1 else rnd2.sample(cmodel['flags'], 16)
+                for f in fl:
                     for cwd in ('@B', '@O'):
                         rid += 1
                         runs2.append((f'A2.{rid}', X, f, cwd))
             step = max(1, len(runs2) // (common.NCPU * 3) + 1)
             fut_a2 = [ex.submit(_worker_a2, (str(bld), runs2[lo:lo + step], chk.seed)) for lo in range(0, len(runs2), step)]
+            # (A3) msbuild command lines for the same invocations (no run/alias targets, never TARGET with --clean)
+            (bld / 'x03.sln').write_text('')
+            runlike = [t['n'] for t in cmodel['targets'] if t['ty'] in ('run', 'alias')]
+            runs3 = [(r[0].replace('A2', 'A3'), r[1], r[2]) for r in runs2
+                     if r[3] == '@O' and not (r[2]['clean'] and r[1]) and not any(e['g'] in runlike for e in r[1])]
+            step = max(1, len(runs3) // common.NCPU + 1)
+            fut_a3 = [ex.submit(_worker_a3, (str(bld), runs3[lo:lo + step], chk.seed)) for lo in range(0, len(runs3), step)]
             a2runs: T.List[T.Dict[str, T.Any]] = []
             for fu in fut_a2:
                 a2runs.extend(fu.result())
+            a3runs: T.List[T.Dict[str, T.Any]] = []
+            for fu in fut_a3:
+                a3runs.extend(fu.result())
+            phases['a2_done_at'] = round(time.time() - t0, 1)
         a1cases: T.List[T.Dict[str, T.Any]] = []
         for fu in fut_a1:
             a1cases.extend(fu.result())
+        phases['a1_done_at'] = round(time.time() - t0, 1)
         bcases = [fu.result() for fu in fut_b]
+        phases['b_done_at'] = round(time.time() - t0, 1)
 
     # A1 judged
     chk.evaluations += len(a1cases) * len(exprs)
@@ -579,7 +640,12 @@ def main(chk: Check) -> None:
     if a2runs:
         r = a2runs[len(a2runs) // 2]
         chk.sample({'id': r['rid'], 'meson compile': r['cmdline'], 'ninja argv': r['argv'], 'rc': r['rc'], 'err': r['err']})
-    judge(chk, [], [], a2cases, 'A2', parts=1 if quick else 2)
+    a2cases += [{'id': f'A3#{k}', 'kind': 'V', 'T': T0, 'runs': list(part), 'declared': declared}
+                for k, part in enumerate(common.chunks(a3runs, 200))]
+    chk.traces += len(a3runs)
+    chk.extra['a2_runs'] = len(a2runs)
+    chk.extra['a3_msbuild_command_lines'] = len(a3runs)
+    judge(chk, [], [], a2cases, 'A2+A3', parts=1 if quick else 2)
 
     # B judged
     failed = [c for c in bcases if 'setup_failed' in c]
@@ -605,6 +671,7 @@ def main(chk: Check) -> None:
                         'ninja argv': r['argv'], 'rc': r['rc'], 'err': r['err']}, limit=8)
     judge(chk, [], [], good, 'B', parts=1)
 
+    phases['judged_at'] = round(time.time() - t0, 1)
     chk.exhaustive = True
     chk.assumptions += [
         'TARGET grammar: names never contain "/" or ":"; PATH is written without ".." ("sub/foo" and "./sub/foo" only); a name '
@@ -638,6 +705,20 @@ def replay(chk: Check, data: T.Dict[str, T.Any]) -> None:
         return
     rnd = random.Random(0)
     r = det['run']
+    if det['kind'] == 'V':
+        common.use_repo_meson()
+        from mesonbuild import mcompile
+        from mesonbuild.mesonlib import MesonException
+        with scratch('x03r-') as d:
+            c = run_project(det['declared'], d, rnd, 0, 'replay', fixed_runs=[])
+            if 'setup_failed' in c:
+                raise MachineryError('meson setup failed in replay:\n' + c['setup_failed'])
+            bld = str(d / 'build dir')
+            Path(bld, 'x03.sln').write_text('')
+            c['kind'] = 'V'
+            c['runs'] = [vs_run(mcompile, MesonException, bld, 'replay', r['X'], r['f'], rnd)]
+        judge(chk, [], [], [c], 'replay')
+        return
     with scratch('x03r-') as d:
         c = run_project(det['declared'], d, rnd, 0, 'replay',
                         fixed_runs=[{'X': r['X'], 'f': r['f'], 'cwd': r['cwd'], 'bd': r['bd']}])
